@@ -3,7 +3,8 @@
     and nat stay the extracted inductive types. *)
 From Coq Require Import Extraction ExtrOcamlBasic.
 From Prtpy Require Import Base.Prelude Base.Perms Model.Binner Model.Objectives Model.Greedy Model.Packing
-     Model.Covering Model.KK Model.CG Model.DP Model.CBLDM Model.InExTree Model.SNP Model.BinCompletion.
+     Model.Covering Model.KK Model.CG Model.DP Model.CBLDM Model.InExTree Model.SNP Model.BinCompletion
+     Oracle.Reach Oracle.Checkers.
 
 Extraction Language OCaml.
 
@@ -28,4 +29,7 @@ Separate Extraction
   InExTree.generate_tree
   SNP.snp SNP.rnp SNP.find_diff
   BinCompletion.bin_completion BinCompletion.find_bin_completions BinCompletion.check_for_dominance
-  BinCompletion.is_dominant BinCompletion.undominated_pairs.
+  BinCompletion.is_dominant BinCompletion.undominated_pairs
+  Reach.reach Reach.opt_value Reach.min_bins Reach.max_cover Reach.opt_balanced2 Reach.reach_unsorted Reach.pack_states
+  Checkers.is_partition_b Checkers.is_packing_b Checkers.nonempty_b Checkers.is_cover_b Checkers.anyfit_b
+  Checkers.ascending_b Checkers.wf_b Checkers.same_items_b.
